@@ -331,11 +331,13 @@ func (vfs *OrefaFS) Link(oldname, newname string) error {
 
 	nDirName, nFileName := avfs.SplitAbs(vfs, nAbsPath)
 
-	vfs.mu.RLock()
+	// The index is locked before any node, as in Mkdir, Remove and OpenFile.
+	vfs.mu.Lock()
+	defer vfs.mu.Unlock()
+
 	oChild, oChildOk := vfs.nodes[oAbsPath]
 	_, nChildOk := vfs.nodes[nAbsPath]
 	nParent, nParentOk := vfs.nodes[nDirName]
-	vfs.mu.RUnlock()
 
 	if !oChildOk {
 		err := vfs.err.NoSuchFile
@@ -343,9 +345,7 @@ func (vfs *OrefaFS) Link(oldname, newname string) error {
 		if vfs.OSType() == avfs.OsWindows {
 			oDirName, _ := avfs.SplitAbs(vfs, oAbsPath)
 
-			vfs.mu.RLock()
 			_, oParentOk := vfs.nodes[oDirName]
-			vfs.mu.RUnlock()
 
 			if !oParentOk {
 				err = vfs.err.NoSuchDir
@@ -362,9 +362,6 @@ func (vfs *OrefaFS) Link(oldname, newname string) error {
 	oChild.mu.Lock()
 	defer oChild.mu.Unlock()
 
-	nParent.mu.Lock()
-	defer nParent.mu.Unlock()
-
 	if oChild.mode.IsDir() {
 		err := error(avfs.ErrOpNotPermitted)
 		if vfs.OSType() == avfs.OsWindows {
@@ -372,6 +369,18 @@ func (vfs *OrefaFS) Link(oldname, newname string) error {
 		}
 
 		return &os.LinkError{Op: op, Old: oldname, New: newname, Err: err}
+	}
+
+	if nParent == oChild {
+		// newname is below oldname, which is not a directory.
+		return &os.LinkError{Op: op, Old: oldname, New: newname, Err: vfs.err.NotADirectory}
+	}
+
+	nParent.mu.Lock()
+	defer nParent.mu.Unlock()
+
+	if !nParent.mode.IsDir() {
+		return &os.LinkError{Op: op, Old: oldname, New: newname, Err: vfs.err.NotADirectory}
 	}
 
 	if nChildOk {
@@ -383,9 +392,7 @@ func (vfs *OrefaFS) Link(oldname, newname string) error {
 		return &os.LinkError{Op: op, Old: oldname, New: newname, Err: err}
 	}
 
-	vfs.mu.Lock()
 	vfs.nodes[nAbsPath] = oChild
-	vfs.mu.Unlock()
 
 	nParent.addChild(nFileName, oChild)
 
